@@ -144,3 +144,45 @@ func (b *Bus) Clone() *Bus {
 	n := &Bus{Mem: b.Mem, IOSeed: b.IOSeed, PortReads: b.PortReads, KeepPorts: b.KeepPorts}
 	return n
 }
+
+// Overlay is a recording copy-on-write view of a Bus for a one-Step twin: it
+// reads the base image, keeps its own writes, logs like a Bus and draws the
+// same port input bytes the base would draw next. The base is not modified.
+type Overlay struct {
+	Base      *Bus
+	W         map[uint16]uint8
+	Log       []Acc
+	portReads uint64
+}
+
+// NewOverlay returns an empty overlay over b.
+func NewOverlay(b *Bus) *Overlay {
+	return &Overlay{Base: b, W: map[uint16]uint8{}, portReads: b.PortReads}
+}
+
+// Get implements z80.Memory.
+func (o *Overlay) Get(a uint16) uint8 {
+	v, ok := o.W[a]
+	if !ok {
+		v = o.Base.Mem[a]
+	}
+	o.Log = append(o.Log, Acc{MR, a, v})
+	return v
+}
+
+// Set implements z80.Memory.
+func (o *Overlay) Set(a uint16, v uint8) {
+	o.W[a] = v
+	o.Log = append(o.Log, Acc{MW, a, v})
+}
+
+// In implements z80.IO.
+func (o *Overlay) In(p uint8) uint8 {
+	v := InByte(o.Base.IOSeed, o.portReads, p)
+	o.portReads++
+	o.Log = append(o.Log, Acc{PI, uint16(p), v})
+	return v
+}
+
+// Out implements z80.IO.
+func (o *Overlay) Out(p uint8, v uint8) { o.Log = append(o.Log, Acc{PO, uint16(p), v}) }
